@@ -66,3 +66,23 @@ Definition rmw_schedule : list label :=
    StepL; StepL;                                                     (* loop: setInsideLoopBody(false): load, store *)
    StepC; StepC;                                                     (* stop(): reads insideLoopBody = false; returns *)
    StepL; StepL; StepL; StepL; StepL; StepL].                        (* loop: alive, alive, load, store, test run = true, body *)
+
+(* ------------------------------------------------------------------------------------------------------------
+   Second variant: stop() waits for insideLoopBody only for a BOUNDED time (one timed wait whose result is ignored,
+   a retry counter, ...): modelled as "having found the body inside once, the next look gives up and returns".
+   Everything else is the Repaired system. *)
+Definition bstep (l : launch) (s : state) (lab : label) : option state :=
+  match lab, cp s with
+  | StepC, PSpin => Some (set_cp s PRet)            (* the bound has elapsed: return whatever insideLoopBody says *)
+  | _, _ => step (l, Repaired) s lab
+  end.
+Fixpoint brun (l : launch) (s : state) (ls : list label) : option state :=
+  match ls with
+  | [] => Some s
+  | x :: q => match bstep l s x with Some s' => brun l s' q | None => None end
+  end.
+(* start(); the loop thread enters the body; stop(): clears the flag, finds the body inside, gives up, returns *)
+Definition bounded_wait_schedule : list label :=
+  [CallStart; StepC; StepC; StepC; StepC; StepC; StepC;
+   StepL; StepL; StepL; StepL; StepL;                       (* alive, alive, publish inside, test run = true, body entered *)
+   CallStop; StepC; StepC; StepC; StepC].                   (* run := false; inside = true -> spin; bound elapsed; return *)
